@@ -285,3 +285,71 @@ func init() {
 		},
 	})
 }
+
+func init() {
+	register(&propSpec{
+		id: "C17",
+		explanation: "Structural necessary conditions of 'a proxy rejects spoofed sources, isolates bad peers and shuts down cleanly': the enqueue, the interceptor call and every header rewrite are reached only under header-present ∧ source==attached-name, and no proxy panic site is controlled by peer data (C17.1); nothing reachable from the single forwarding loop blocks except its own escapable command wait, and dialling runs on its own goroutine (C17.2); removal from the peer table is under a fact comparing the current entry with the failing connection (C17.3); every blocking primitive of the peer loops is escapable by the proxy context (C17.4); each failing Read/Write/dial reports exactly its error once and the callback runs outside the lock (C17.5); the forwarding loop returns when its context is done (C17.6). 'Never delays' as latency is NOT decided.",
+		ruleText:    "obligation = one gated site, panic site, blocking primitive, removal or report; non-trivial = needed facts, taint provenance, may-block summaries, context ancestry",
+		assumptions: baseAssumptions,
+		run: func(c *Ctx, thorough bool) {
+			c.guard("C17.1", func() { ruleProxySourceGate(c, "C17.1") })
+			c.guard("C17.2", func() { ruleForwardingLoopNeverWaits(c, "C17.2") })
+			c.guard("C17.3", func() { ruleRemovalIdentityChecked(c, "C17.3") })
+			c.guard("C17.4", func() { rulePeerLoopsCanExit(c, "C17.4") })
+			c.guard("C17.5", func() { ruleFailureReported(c, "C17.5") })
+			c.guard("C17.6", func() { ruleContextEndsLoop(c, "C17.6") })
+		},
+	})
+	register(&propSpec{
+		id: "C18",
+		explanation: "Structural necessary conditions of 'a demultiplexer gives each key its own ordered connection and shares the writer': the connection receiving an envelope is the registry entry under demuxOn(envelope) or the one created for that key, and the value handed over is the envelope read (C18.1); creation happens only when the key is absent, in the critical section of the lookup, with one registry store, one writer goroutine and one announcement over the record's own channels (C18.2); frozen single sender/receiver sets for r and w, and the writer writes the received value unchanged to the shared transport (C18.3); no send can race a close of r/w (C18.4); the run loop and the writer are escapable by the context Stop cancels (C18.5); the channel transport's read tests for closure and fails (C18.6). Behaviour under concrete interleavings is NOT decided.",
+		ruleText:    "obligation = one lookup/creation site, queue role set, close/send pair, blocking primitive; non-trivial = needed provenance, facts, locksets",
+		assumptions: baseAssumptions,
+		run: func(c *Ctx, thorough bool) {
+			c.guard("C18.1", func() { ruleDemuxRouting(c, "C18.1", "C18.2") })
+			c.guard("C18.3", func() { ruleDemuxWriter(c, "C18.3") })
+			c.guard("C18.4", func() {
+				f := func(d string) bool { return d == "r" || d == "w" }
+				ruleCloseSendExclusion(c, "C18.4", f)
+				ruleNoDoubleClose(c, "C18.4", f)
+			})
+			c.guard("C18.5", func() { ruleDemuxRunEscapable(c, "C18.5") })
+			c.guard("C18.6", func() {
+				r, _ := c.p.rwClosures(c.p.MustFn("goat.NewGoatOverChannel"))
+				ruleChannelReadFailsAfterClose(c, "C18.6", r, "chan.read")
+			})
+		},
+	})
+	register(&propSpec{
+		id: "C19",
+		explanation: "Structural necessary conditions of 'shipped transports carry every envelope unchanged and reject what is not one': every blocking primitive in every RpcReadWriter implementation in scope selects on / is handed the method's own context (C19.1); the WebSocket read returns an envelope only under binary ∧ decoded, the HTTP handler delivers only under body/read/decode/header/source/mapping checks and every rejecting exit answers 400 (C19.2); what is written is proto.Marshal of the envelope given and what is returned/delivered is what was decoded (C19.3); the idle cleaner's close of the delivery channel cannot race a delivery send, and the delivery send is escapable (C19.4); readers of a closed connection fail (C19.5). Equality of envelopes across proto.Marshal/Unmarshal is NOT decided.",
+		ruleText:    "obligation = one blocking primitive, guarded return/delivery, write site, close/send pair; non-trivial = needed facts, provenance, locksets",
+		assumptions: baseAssumptions,
+		run: func(c *Ctx, thorough bool) {
+			c.guard("C19.1", func() { ruleTransportCtxDiscipline(c, "C19.1") })
+			c.guard("C19.2", func() { ruleTransportRejection(c, "C19.2") })
+			c.guard("C19.3", func() { ruleTransportPassThrough(c, "C19.3") })
+			c.guard("C19.4", func() { ruleHttpIdleCleanup(c, "C19.4") })
+			c.guard("C19.5", func() {
+				ruleChannelReadFailsAfterClose(c, "C19.5", c.p.MustFn("goat.httpReadWriter.Read"), "httpReadWriter.Read")
+				r, _ := c.p.rwClosures(c.p.MustFn("goat.NewGoatOverChannel"))
+				ruleChannelReadFailsAfterClose(c, "C19.5", r, "chan.read")
+			})
+		},
+	})
+	register(&propSpec{
+		id: "C20",
+		explanation: "Structural necessary conditions of 'interceptors and stats handlers see every RPC exactly once, in order': after each Begin the End emission is deferred before any exit; newStream emits End on its error path xor transfers to the stream read loop whose deferred block emits it on every exit (C20.1); Begin dominates every other event of the RPC and every event's context descends from the TagRPC result (C20.2); the error given to End is the variable holding the RPC's outcome, io.EOF excluded, and every exit of the stream read loop assigns it (C20.3); per API call exactly one of {interceptor(…, direct implementation), direct implementation}, guarded by the interceptor being configured (C20.4); the chain builders recurse with the same curr+1 they index with, stop at len-1, start at 0, and are isomorphic (C20.5); one ConnBegin before the read loop and one deferred ConnEnd per served connection (C20.6). Event order at run time across goroutines is NOT decided.",
+		ruleText:    "obligation = one pairing, dominance, provenance or recurrence check; non-trivial = needed a path search, dominance, provenance",
+		assumptions: baseAssumptions,
+		run: func(c *Ctx, thorough bool) {
+			c.guard("C20.1", func() { ruleBeginEndPairing(c, "C20.1") })
+			c.guard("C20.2", func() { ruleBeginFirstSameTag(c, "C20.2") })
+			c.guard("C20.3", func() { ruleEndErrorIsOutcome(c, "C20.3") })
+			c.guard("C20.4", func() { ruleInterceptorExactlyOnce(c, "C20.4") })
+			c.guard("C20.5", func() { ruleChainRecurrence(c, "C20.5") })
+			c.guard("C20.6", func() { ruleConnEvents(c, "C20.6") })
+		},
+	})
+}
